@@ -559,6 +559,8 @@ func (r *Recomposer) setValue(v any, rv reflect.Value, sf *reflect.StructField) 
 		} else if jn, jok := v.(json.Number); jok {
 			if i, err := jn.Int64(); err == nil {
 				rv.Set(reflect.ValueOf(i).Convert(rv.Type()))
+			} else if u, uerr := strconv.ParseUint(string(jn), 10, 64); uerr == nil && rv.CanUint() {
+				rv.SetUint(u) // above MaxInt64
 			} else {
 				panic(err)
 			}
